@@ -7,8 +7,8 @@ forwarding wrapper around the real problem object) + spec monitor evaluated on t
 snapshots with an independently computed kernel matrix.
 
 streams:  main     small-integer / dyadic data, C over several magnitudes  -> must be clean
-          extreme  tiny-scale data with huge C (finding F3)               -> violations carry the
-                   stable key  box2d:tiny-det-fallback
+          extreme  tiny-scale data with huge C (finding F3, repaired by /repo commit bc5f2886; a
+                   recurrence carries the stable key  box2d:tiny-det-fallback)        -> must be clean
 """
 import os, sys, re, math, struct, json
 sys.path.insert(0, os.path.dirname(os.path.abspath(__file__)))
